@@ -1,3 +1,4 @@
 SPECIFICATION TSpec
 INVARIANT Monitor
+VIEW TView
 CHECK_DEADLOCK FALSE
